@@ -99,15 +99,33 @@ theorem flush_explicable_partial {m : Mirror} {snap : Snap} (hag : Agree m snap)
   obtain ⟨out, hmerge, hout⟩ := merge_sound_aux m m' _ hm'
   refine ⟨out, m', ?_, hout, by rw [flush_snap]; exact hag'⟩
   unfold flush
-  simp only [hnoerr, hmerge]
+  simp [hnoerr, hmerge]
 
-/-- **CLOSE can crash the server** — in a CLOSE context EXPUNGE responses are suppressed while the
-    snapshot shrinks, so a later EXISTS can carry a smaller count than an earlier one, and `Merge`
-    panics ("consecutive exists must be non-decreasing"); with the default panic handler the
-    process dies. Queue: another party added one message, removed two, added one. -/
-theorem flush_close_panic_witness :
+/-- **CLOSE announces nothing and cannot panic** — in a CLOSE context EXPUNGE responses are
+    suppressed, so any EXISTS/RECENT sent there could contradict what the client knows (a smaller
+    count without an EXPUNGE made `Merge` panic; repaired in gluon by the commit "fix: flushing
+    responders during CLOSE announces nothing"). For every snapshot and every queue the flush of
+    a CLOSE never panics in `Merge` and sends no untagged response. The mailbox is deselected
+    right after, so the client's reconstruction ends there. -/
+theorem flush_close_silent (permit : Bool) (sid : StateId) (snap : Snap) (res : List Responder) :
+    (flush permit true sid snap res).result ≠ .mergePanic ∧
+    ∀ out, (flush permit true sid snap res).result = .ok out → out = [] := by
+  constructor
+  · unfold flush
+    simp only
+    split
+    · simp
+    · simp
+  · intro out h
+    rcases (flush_result_ok h).2 with ⟨_, rfl⟩ | ⟨hc, _⟩
+    · rfl
+    · simp at hc
+
+/-- the queue that used to crash the server (another party added one message, removed two, added
+    one, then CLOSE): now silent -/
+example :
     (flush true true 1 [Snap.mkMsg 1 1 [], Snap.mkMsg 2 2 []]
-      [.exists 3 3 [] 2 none, .expunge 1, .expunge 2, .exists 4 4 [] 2 none]).result = .mergePanic := by
+      [.exists 3 3 [] 2 none, .expunge 1, .expunge 2, .exists 4 4 [] 2 none]).result = .ok [] := by
   decide
 
 /-- the uses of snapshot-mutating code that the theorems above account for (hand-written
